@@ -394,8 +394,8 @@ class Campaign:
         """truly concurrent worker threads (no cooperative scheduler, nothing traced): with LPs that freeze once their predicate holds the
         state of every LP at LP_FINI is the state C01 speaks about, so the final states of a real-thread run must equal those of the serial
         run of the same binary, whatever the number of threads, the checkpoint interval and the GVT period (C09).  This is the only phase
-        that sees data races and effects of the memory model; a run that does not return within its time limit is counted (the known
-        shutdown deadlock D9 cannot be told apart without a trace) and is an alarm only when more than a third of the runs hang."""
+        that sees data races and effects of the memory model; a run that does not return within its time limit is only counted (the known
+        shutdown deadlock D9 and a loaded machine cannot be told apart from a new hang without a trace: C08 is decided by the traced runs)."""
         import re as _re
         r = random.Random(self.seed * 31 + 5)
 
@@ -419,14 +419,14 @@ class Campaign:
                 self.machinery.append({"property": self.pid, "what": "frozen serial run failed rc=%s %s" % (rc, out[-200:]), "model": (fm[0], fm[1])})
                 continue
             ref = fin(ser)
-            cfgs = [{"threads": r.choice([2, 3, 4, 6, 8, 8, 16]), "ckpt": r.choice([0, 1, 2, 3, 7]), "period": r.choice([50, 200, 1000, 5000]),
+            cfgs = [{"threads": r.choice([2, 3, 4, 4, 6, 8, 8]), "ckpt": r.choice([0, 1, 2, 3, 7]), "period": r.choice([50, 200, 1000, 5000]),
                      "sseed": r.randrange(1, 1 << 30)} for _ in range(nruns)]
 
             def one(ic):
                 i, c = ic
                 tr = os.path.join(md["dir"], "real_%d.ndjson" % i)
                 rc, out = run_twh(self.bdir, ["--model", md["txt"], "--out", tr, "--real", "--freeze", "--threads", c["threads"], "--ckpt", c["ckpt"],
-                                              "--gvt-period", c["period"], "--seed", c["sseed"]], timeout=20)
+                                              "--gvt-period", c["period"], "--seed", c["sseed"]], timeout=45)
                 if rc != 0:
                     return (c, "hang" if rc == -9 else "rc=%s" % rc, None)
                 got = fin(tr)
@@ -454,9 +454,6 @@ class Campaign:
                     st["crashed"] += 1
                     self.violations.append({"property": "C11" if "C11" in self.own else self.pid, "what": "real-thread run crashed (%s)" % verdict, "line": 0,
                                             "cfg": dict(c, real=1), "model": (fm[0], fm[1]), "trace": None, "md": md}) if ("C11" in self.own or True) else None
-            if st["not_returned"] * 3 > st["runs"]:
-                self.violations.append({"property": "C08" if "C08" in self.own else self.pid, "what": "%d of %d real-thread runs did not return within 20 s" % (
-                    st["not_returned"], st["runs"]), "line": 0, "cfg": {"real": 1}, "model": (fm[0], fm[1]), "trace": None, "md": md})
 
     @_timed
     def sweep_phase(self, family, mseed, cfgs, size="small"):
